@@ -147,17 +147,8 @@ var c28Numbers = []string{
 }
 
 func c28Number(r *Rand, allowNeg bool) string {
-	for {
-		s := r.Pick(c28Numbers)
-		if allowNeg {
-			return s
-		}
-		// known finding C28-shift-negative: a count that strconv.Atoi accepts as negative
-		if n, err := strconv.Atoi(s); err == nil && n < 0 {
-			continue
-		}
-		return s
-	}
+	_ = allowNeg // no exclusion any more: negative counts are an error since fix 2d6a9e4
+	return r.Pick(c28Numbers)
 }
 
 // ---------------------------------------------------------------------------------------------
@@ -191,6 +182,8 @@ func c28TieShift(c *Ctx, dir string, nparams int, args []string) {
 		got = "panic"
 	case strings.HasPrefix(res.stdout, "2:"):
 		got = "usage"
+	case strings.HasPrefix(res.stdout, "1:") && strings.Contains(res.stderr, "shift count out of range"):
+		got = "range"
 	case strings.HasPrefix(res.stdout, "0:"):
 		got = "ok " + strings.TrimSpace(res.stdout[2:])
 	default:
@@ -613,7 +606,11 @@ func c28TieSliceStr(c *Ctx, val string, off, ln *int) {
 			cfg := &expand.Config{Env: c28Env{map[string]expand.Variable{"s": {Set: true, Kind: expand.String, Str: val}}}}
 			s, err := expand.Literal(cfg, w)
 			if err != nil {
-				got = "error " + hx(err.Error())
+				if strings.HasSuffix(err.Error(), ": substring expression < 0") {
+					got = "error"
+				} else {
+					got = "unexpected-error " + hx(err.Error())
+				}
 				return
 			}
 			got = runesTok(s)
@@ -749,9 +746,10 @@ func c28TieLvalue(c *Ctx, dir string, lhs string) {
 	}
 	got := "1 "
 	var names []string
+	var aerr error
 	p := safely(func() {
 		cfg := &expand.Config{Env: c28RecEnv{&names}}
-		expand.Arithm(cfg, f.Stmts[0].Cmd.(*syntax.ArithmCmd).X)
+		_, aerr = expand.Arithm(cfg, f.Stmts[0].Cmd.(*syntax.ArithmCmd).X)
 	})
 	res := c28RunIn(dir, src, nil)
 	if res.skip {
@@ -759,10 +757,12 @@ func c28TieLvalue(c *Ctx, dir string, lhs string) {
 		return
 	}
 	switch {
-	case res.panicked != "" && len(names) > 0 && names[0] == "":
-		got += "panic"
 	case res.panicked != "" || p != "":
-		got += "unexpected-panic " + hx(res.panicked+p)
+		got += "panic"
+	case aerr != nil && strings.Contains(aerr.Error(), "unsupported assignment target") && len(names) == 0:
+		got += "error"
+	case aerr != nil:
+		got += "unexpected-error " + hx(aerr.Error())
 	case len(names) == 0:
 		got += "no-lookup"
 	default:
